@@ -108,5 +108,9 @@ def run(check, ctx):
              expected="documented meaning of the third positional argument")
     from . import c02_extra
     c02_extra.run(check, ctx)
+    # decrypt() inverts encrypt() also in place: the MAC/cipher order of the AEAD modes
+    from .c09_extra import run_order, AEAD
+    for modname, cls, macs, sink in AEAD:
+        run_order(check, repo, modname, cls, macs, sink)
     check.undecided.append("ciphertext/tag equality with the standards for all inputs (block primitives, "
                            "chaining, counter arithmetic in C); inversion")
